@@ -187,6 +187,21 @@ class Driver:
             self.p.kill()
 
 
+TRANSLATED_PROPS = {"C01", "C02", "C03", "C05", "C06", "C09", "C10", "C11", "C12", "C13"}
+
+
+def property_files(pid):
+    """the source files a property is anchored in (properties.jsonl)"""
+    try:
+        for line in open(os.path.join(VERIF, "properties.jsonl")):
+            p = json.loads(line)
+            if p.get("id") == pid:
+                return set(p.get("anchors", {}).get("files", []))
+    except OSError:
+        pass
+    return set()
+
+
 def lan_of(dev):
     """the LAN object of a device, whatever the attribute is called"""
     from msmart.lan import LAN
